@@ -208,6 +208,9 @@ class NativeBackend(BackendBase):
     def len_(self, lst):
         return len(lst)
 
+    def str_startswith(self, s, prefix):
+        return s.startswith(prefix)
+
     def nodup(self, lst):
         return all(not (lst[i] is lst[j]) for i in range(len(lst)) for j in range(i + 1, len(lst)))
 
@@ -284,6 +287,63 @@ class NativeBackend(BackendBase):
         if isinstance(v, BaseException):
             return {"$exc": type(v).__name__}
         return {"$new": type(v).__name__}
+
+    # ---- random number generator: answers taken from the model
+    def install_rng(self):
+        import random
+        self._rng = list(self.holes.get("$rng", []))
+        self._rng_pos = 0
+        B = self
+
+        def nxt(kind):
+            if B._rng_pos >= len(B._rng):
+                raise HarnessError("the real code asked the RNG for more answers than the model has")
+            e = B._rng[B._rng_pos]
+            B._rng_pos += 1
+            if e[0] != kind:
+                raise HarnessError(f"RNG call order differs: model has {e[0]}, code called {kind}")
+            return e[1]
+
+        def randint(a, b):
+            v = nxt("randint")
+            if not (a <= v <= b):
+                raise HarnessError(f"model randint value {v} outside [{a},{b}]")
+            return v
+
+        def sample(pop, k):
+            if k < 0 or k > len(pop):
+                raise ValueError("Sample larger than population or is negative")
+            idx = nxt("sample")
+            if len(idx) != k:
+                raise HarnessError(f"model sample size {len(idx)} != requested {k}")
+            return [pop[i] for i in idx]
+        self._rng_saved = (random.randint, random.sample)
+        random.randint, random.sample = randint, sample
+
+    def rng_rewind(self):
+        self._rng_pos = 0
+
+    def oracle_ints(self, name, n):
+        vals = list(self._hole(name))
+        state = {"j": 0}
+
+        def pick(r):
+            j = state["j"]
+            state["j"] += 1
+            v = vals[j]
+            if not (0 <= v <= r):
+                raise HarnessError(f"oracle value {v} outside [0,{r}]")
+            return v
+        return pick
+
+    def restore_patches(self):
+        import random
+        if getattr(self, "_rng_saved", None):
+            random.randint, random.sample = self._rng_saved
+            self._rng_saved = None
+        for mod, attr, val in getattr(self, "_patched", []):
+            setattr(mod, attr, val)
+        self._patched = []
 
     # ---- reaching an installed pre-state through the public API (DESIGN 4.1)
     def try_public_assoc(self, verts, links):
